@@ -6,9 +6,14 @@
 //! them unless they are locked. One node-funded command runs through the command-line
 //! parser; observation = the node's locked set afterwards; oracle = inputs of every
 //! broadcast transaction + the locked set.
-//!   case: cmd has_rune_index n flags_0..flags_{n-1}      flags: 1 inscribed, 2 runic, 4 locked
+//!   case: cmd has_rune_index n flags_0..flags_{n-1} [dry]   flags: 1 inscribed, 2 runic, 4 locked
 //!   cmd = index into Generated.WALLET_FUND_COMMANDS:
-//!     0 mint  1 offer create  2 split  3 sweep (not driven end to end)  4 send amount  5 send/burn runes
+//!     0 mint  1 offer create  2 split  3 sweep  4 send amount  5 send/burn runes
+//!   dry (harness only, the model ignores it): run the command with --dry-run (split, sweep,
+//!   send, burn have it). The model's action list does not depend on it: the lock must happen.
+//! Besides the broadcast transactions the oracle inspects every transaction the node returned
+//! from fundrawtransaction (guarded mock hook VERIF_FUNDED), so commands that do not broadcast
+//! (offer create, every --dry-run) are covered too.
 //! obs: k id_1..id_k   (wallet outputs locked in the node after the command, ascending)
 use crate::world::*;
 use bitcoin::OutPoint;
@@ -18,7 +23,8 @@ pub fn gen(rng: &mut Rng, tier: &str) -> Vec<Line> {
   let n = if tier == "thorough" { 300 } else { 36 };
   let mut v = Vec::new();
   for i in 0..n {
-    let cmd = [0u64, 1, 2, 4, 5, 5][i % 6];
+    let cmd = [0u64, 1, 2, 4, 5, 3, 3, 2, 5, 3, 4, 2][i % 12];
+    let dry = matches!(cmd, 2 | 3 | 4 | 5) && i % 12 >= 6;
     let has_rune_index = !(cmd == 4 && rng.chance(1, 4));
     let k = rng.range(1, 6) as usize;
     let mut l = L::new().p(cmd).p(has_rune_index).p(k);
@@ -35,6 +41,7 @@ pub fn gen(rng: &mut Rng, tier: &str) -> Vec<Line> {
       }
       l.push(f);
     }
+    l.push(dry);
     v.push(l.done());
   }
   v
@@ -46,6 +53,7 @@ pub fn run(line: &Line) -> Outcome {
   let has_rune_index = c.bool();
   let n = c.usize();
   let flags: Vec<u64> = (0..n).map(|_| c.u64()).collect();
+  let dry = if c.at_end() { false } else { c.bool() };
   guarded("fund", || {
     let spec = WorldSpec {
       regtest: true,
@@ -62,14 +70,16 @@ pub fn run(line: &Line) -> Outcome {
         })
         .collect(),
       foreign: 1,
-      foreign_inscribed: true,
+      foreign_inscribed: cmd != 3,
       cardinals: 2,
       no_rune_index: !has_rune_index,
       no_inscription_index: false,
+      sweepable_foreign: cmd == 3,
     };
     let w = World::new(spec);
     let dest = w.foreign_address.to_string();
     let rune = w.runes.first().map(|r| r.to_string()).unwrap_or_default();
+    mockcore::VERIF_FUNDED.lock().unwrap().clear();
     let r = match cmd {
       0 => w.cli(&["mint", "--fee-rate", "1", "--rune", &rune]),
       1 => {
@@ -79,15 +89,34 @@ pub fn run(line: &Line) -> Outcome {
       2 => {
         let yaml = format!("outputs:\n- address: {dest}\n  runes:\n    {rune}: 1\n");
         let path = w.file("splits.yaml", &yaml);
-        w.cli(&["split", "--fee-rate", "1", "--splits", &path])
+        if dry {
+          w.cli(&["split", "--dry-run", "--fee-rate", "1", "--splits", &path])
+        } else {
+          w.cli(&["split", "--fee-rate", "1", "--splits", &path])
+        }
       }
-      4 => w.cli(&["send", "--fee-rate", "1", &dest, "1000sat"]),
+      3 => {
+        let wif = sweep_private_key(bitcoin::Network::Regtest).to_wif();
+        if dry {
+          w.cli_with_stdin(&["sweep", "--dry-run", "--fee-rate", "1", "--address-type", "p2wpkh"], &format!("{wif}\n"))
+        } else {
+          w.cli_with_stdin(&["sweep", "--fee-rate", "1", "--address-type", "p2wpkh"], &format!("{wif}\n"))
+        }
+      }
+      4 => {
+        if dry {
+          w.cli(&["send", "--dry-run", "--fee-rate", "1", &dest, "1000sat"])
+        } else {
+          w.cli(&["send", "--fee-rate", "1", &dest, "1000sat"])
+        }
+      }
       _ => {
         let asset = format!("1:{rune}");
-        if n % 2 == 0 {
-          w.cli(&["send", "--fee-rate", "1", &dest, &asset])
-        } else {
-          w.cli(&["burn", "--fee-rate", "1", &asset])
+        match (n % 2 == 0, dry) {
+          (true, false) => w.cli(&["send", "--fee-rate", "1", &dest, &asset]),
+          (true, true) => w.cli(&["send", "--dry-run", "--fee-rate", "1", &dest, &asset]),
+          (false, false) => w.cli(&["burn", "--fee-rate", "1", &asset]),
+          (false, true) => w.cli(&["burn", "--dry-run", "--fee-rate", "1", &asset]),
         }
       }
     };
@@ -127,26 +156,34 @@ pub fn run(line: &Line) -> Outcome {
       }
     }
     let pool = w.mempool();
-    for tx in &pool {
+    let funded: Vec<bitcoin::Transaction> = mockcore::VERIF_FUNDED.lock().unwrap().clone();
+    if r.is_ok() && funded.is_empty() {
+      oracle = Err("command succeeded without a fundrawtransaction call".to_string());
+    }
+    if dry && !pool.is_empty() {
+      oracle = Err("--dry-run broadcast a transaction".to_string());
+    }
+    for tx in pool.iter().chain(funded.iter()) {
       for i in &tx.input {
         let op: OutPoint = i.previous_output;
         if let Some(j) = w.outpoints.iter().position(|o| *o == op) {
           let f = flags[j];
           let subject = (cmd == 2 || cmd == 5) && f & 3 == 2;
           if f & 3 != 0 && !subject {
-            oracle = Err(format!("broadcast transaction spends non-cardinal output {j} (flags {f})"));
+            oracle = Err(format!("funded / broadcast transaction spends non-cardinal output {j} (flags {f})"));
           }
           if f & 4 != 0 && !subject {
-            oracle = Err(format!("broadcast transaction spends output {j} that was locked"));
+            oracle = Err(format!("funded / broadcast transaction spends output {j} that was locked"));
           }
         }
       }
     }
-    if r.is_ok() && cmd != 1 && pool.len() != 1 {
+    if r.is_ok() && cmd != 1 && !dry && pool.len() != 1 {
       oracle = Err(format!("command succeeded but {} transactions were broadcast", pool.len()));
     }
     let cat = format!(
-      "cmd{cmd}/{}/{}",
+      "cmd{cmd}{}/{}/{}",
+      if dry { "-dry" } else { "" },
       if r.is_ok() { "ok" } else { "err" },
       if flags.iter().any(|f| f & 3 != 0 && f & 4 == 0) { "tolock" } else { "nothing-to-lock" }
     );
